@@ -16,7 +16,7 @@ func GetDataBlock(data []byte) (n int, block []byte, err error) {
 	if n < 0 {
 		return 0, nil, errors.New("varint: encoded integer greater than uint64")
 	}
-	if n > 0x7FFFFFFF {
+	if number > 0x7FFFFFFF {
 		return 0, nil, errors.New("varint: encoded integer greater than int32")
 	}
 	length := int(number)
